@@ -7,9 +7,10 @@ From VerifGen Require Import Consts.
 From Coq Require Import Permutation.
 Open Scope Z_scope.
 
-(* the model is written against these three facts of the code (re-read from the source) *)
+(* the model is written against these four facts of the code (re-read from the source) *)
 Lemma code_shape_checked :
-  c18_restore_accepts_tombstones = true /\ c18_restore_checks_end_marker = true /\ c18_since_is_strict_after = true.
+  c18_restore_accepts_tombstones = true /\ c18_restore_checks_end_marker = true /\ c18_since_is_strict_after = true /\
+  c18_stream_marker_only_on_success = true.
 Proof. repeat split; reflexivity. Qed.
 
 (* ---------- the cache snapshot is read-neutral (C09 at layer A) ---------- *)
